@@ -97,6 +97,20 @@ def run_call_history(shard):
                     res.violate(violation('call-history:value', f'{name}: after calling other symbolic multivectors of the same key pattern, calling {coeffs} gives {g}', {'shard': shard},
                                           str(want), str(g)))
                     break
+    # string coefficients equal what sympy.sympify makes of them (symbols, reserved constant names, expressions)
+    for txt in ['a', 'b12', 'I', 'pi', 'E', '2*a', 'a+1', 'a**2', '-a', '1/3', 'oo', 'a*I', 'sqrt(2)']:
+        res.evals += 1
+        try:
+            mv = alg.multivector(keys=keys[:1], values=[txt])
+            got = list(mv.values())[0]
+            want = sympy.sympify(txt)
+            if got != want or type(got) is not type(want):
+                res.violate(violation('string-coefficient', f'{name}: the string coefficient {txt!r} becomes {got!r} ({type(got).__name__})', {'shard': shard}, repr(want), repr(got)))
+            kw = alg.multivector(**{alg.bin2canon[keys[0]]: txt})
+            if list(kw.values())[0] != want:
+                res.violate(violation('string-coefficient:keyword', f'{name}: keyword string coefficient {txt!r} becomes {list(kw.values())[0]!r}', {'shard': shard}, repr(want), repr(list(kw.values())[0])))
+        except Exception as e:
+            res.violate(violation('string-coefficient:raises', f'{name}: string coefficient {txt!r}: {type(e).__name__}: {e}', {'shard': shard}, txt, repr(e)))
     res.sample({'config': name, 'call_history': [str(c) for c in fam[:4]], 'family_size': len(fam)})
     return res.asdict()
 
